@@ -279,11 +279,12 @@ def fit_model(case, data, fd_obj=None):
             if "Failed to fit dependence function" in str(e) or "Optimal parameters not found" in str(e):
                 return None, None, "depfit", list(LOG)
             raise
-        except (TypeError, ValueError, KeyError, IndexError) as e:
+        except (TypeError, ValueError, KeyError, IndexError, AttributeError) as e:
             if not LOG and isinstance(e, ValueError):
                 # refused before the first dimension (always unconditional) was fitted: the descriptions were rejected
                 return None, None, "fitdesc:" + str(e), []
-            if isinstance(e, (KeyError, IndexError)):
+            if isinstance(e, (KeyError, IndexError, AttributeError)) or not LOG:
+                # not a failed dependence-function fit (the first dimension is unconditional and is fitted before any)
                 return None, None, "crash:" + type(e).__name__ + ":" + str(e)[:60], list(LOG)
             return None, None, "depfit:" + type(e).__name__, list(LOG)
     return model, deps, None, list(LOG)
@@ -680,6 +681,12 @@ def process_families(ck, sub_seed, n):
         m1 = build()
         try:
             m1.fit(data, fit_descriptions=copy.deepcopy(fd))
+        except NotImplementedError:
+            # (a RuntimeError subclass) LogNormal implements no least squares and its description is None: the first
+            # dimension's options reached it
+            ck.fail({"entry": "GlobalHierarchicalModel.fit", "predicate": "fit_options_of_own_dimension", "families": True}, case,
+                    "the conditional LogNormal dimension (description None) was asked for a least-squares fit")
+            return
         except RuntimeError:
             ck.count("B_fit_failed")
             return
@@ -847,12 +854,17 @@ def process_families2(ck, sub_seed, n):
                 return m, "NotImplementedError"
             except RuntimeError as e:
                 return m, "RuntimeError:" + str(e)[:60]
+            except (TypeError, AttributeError, IndexError, KeyError) as e:
+                return m, "crash:" + type(e).__name__ + ":" + str(e)[:60]
         return m, None
 
     m1, err = run_fit(data)
     if err == "NotImplementedError":
         ck.fail(dict(sig, predicate="fit_options_of_own_dimension"), case,
                 "a least-squares fit was requested from a dimension whose own description says mle / nothing")
+        return
+    if err is not None and err.startswith("crash:"):
+        ck.diverge("fit-pipeline-families", case, f"the model fits every dimension, implementation raised {err[6:]}")
         return
     if err is not None:
         ck.count("B2_fit_failed")
@@ -935,10 +947,16 @@ def _dep(func, pars):
 def main(ck):
     rng = np.random.default_rng(ck.seed)
     thorough = ck.tier == "thorough"
-    ck.rule = ("(A) random data matrices (30..1000 rows; raw, rounded, heavy ties, sorted) x 2-D/3-D structures x random "
-               "Width/Number/PointsPerInterval slicer options x fixed/dependent parameters x fit descriptions (None, mle, "
-               "lsq, wlsq+weights, absent), first fit and fit of the permuted matrix, over recording doubles; (B) shipped "
-               "families (Weibull / exponentiated Weibull WLSQ + conditional LogNormal), 300..3000 rows; distinct by SHA1")
+    ck.rule = ("(A) random data matrices (30..5000 rows, thorough also 20000; raw, rounded, heavy ties, sorted, int64, list of "
+               "rows) x 2-D/3-D structures incl. unconditional dimensions after the first x random Width/Number/"
+               "PointsPerInterval slicer options incl. value_range and the default slicer (no 'intervals' key) x fixed/dependent "
+               "parameters x fit descriptions (None, mle, lsq, wlsq+keyword, wlsq+per-row array also on conditional dimensions, "
+               "absent, without 'method', wrong length; fresh copy or the caller's own list reused for three calls), first fit, "
+               "fit of the permuted matrix and re-fit, over recording doubles; (B) shipped families (Weibull / exponentiated "
+               "Weibull WLSQ + conditional LogNormal), 300..3000 rows (thorough ..20000); (B2) shipped families in 2-D/3-D "
+               "structures (conditional exponentiated Weibull with fixed delta fitted by (w)lsq with keyword weights, conditional "
+               "LogNormal, unconditional middle/last dimensions, default slicer, list-of-lists input), every dimension "
+               "compared with a stand-alone fit using its own method and weights; distinct by SHA1")
     ck.assumptions = ["recording doubles use exactly permutation-invariant closed-form estimators (median, range)",
                       "np.argsort's result is passed to the PointsPerInterval model as the sorting permutation"]
     ck.partial = {"order invariance of iterative estimators": "MLE / least squares are permutation invariant only up to float "
